@@ -62,7 +62,7 @@ CLAIMS = {
             'corollaries: a failed set_program/set_verifier is a no-op, the loaded program was accepted by the verifier in force, executions are pure. Theorem C10_model_is_the_code: the effect '
             'lists of set_program, set_verifier, register_helper, set_stack_usage_calculator, jit_compile and cranelift_compile, regenerated from lib.rs on every run '
             '(the other VM kinds must delegate or repeat them), executed in program order with early return at the first failing step, equal that state machine. '
-            'It is also compared with the real VMs: every history of length <= 2 (<= 4 in the thorough tier) over a 17-op alphabet from 4 initial programs, every history of length <= 4 (<= 5) over a calculator / reload alphabet with two programs whose result is a frame size, directed recompilation and stack-usage histories and random histories on all 4 VM kinds.',
+            'It is also compared with the real VMs: every history of length <= 2 (<= 4 in the thorough tier) over a 17-op alphabet from 4 initial programs, every history of length <= 4 (<= 5) over a calculator / reload alphabet with two programs whose result is a frame size, directed recompilation and stack-usage histories, same-address histories (the programs of a history placed at the start of one buffer) and random histories on all 4 VM kinds.',
             'programs / verifiers / compilers abstract in the theorem; stack-usage validation assumed to succeed in the model; execute_* by correspondence.'),
     'C18': ('proof', 'PARTIAL. Theorem C18_atomic_sum: for every number of threads, addends and interleaving, indivisible adds leave init + sum (mod 2^w) -- no '
             'update lost; C18_split_rmw_loses: a load/store pair loses updates (the property discriminates); C18_engines_use_atomic_rmw: regenerated from '
